@@ -141,3 +141,123 @@ Proof.
   rewrite (uri_roundtrip p G). apply from_fs_path_spec, G.
 Qed.
 Print Assumptions C18_reference_agrees.
+
+(* =====================================================================================
+   Extension: uri_with, the IS_WIN branches (model parameter is_win; everything above is the
+   is_win = false instance), urlparse / urlunparse / uri_scheme.  Proofs: Proofs/UrisExt.v.
+   Open finding candidate: F29 (uri_with drops the authority of a UNC path it is given).
+   ===================================================================================== *)
+From Pygls Require Import Proofs.UrisExt.
+
+(* the authority a URI should have after its path has been replaced by the filesystem path fp *)
+Definition uri_with_host (p fp : list N) : list N :=
+  match unc_parts (rooted fp) with Some _ => norm_host (rooted fp) | None => norm_host p end.
+
+(* uri_with on a URI produced from a path p: replace the path by fp and optionally the authority,
+   the query and the fragment.  The result is the reference URI; re-parsed, the replaced
+   components are the requested ones (the path up to the documented normalisation) and the
+   components not named (scheme, authority unless given, empty params) are unchanged. *)
+Definition C18_uri_with_gen (G : list N -> Prop) : Prop :=
+  forall p fp n q f,
+    guard p = true -> forallb scalar fp = true ->
+    opt_scalar n = true -> no_slash (opt_or n []) = true -> opt_scalar q = true -> opt_scalar f = true ->
+    G fp ->
+    uri_with (spec_uri p) None n (Some fp) None q f = Ret (spec_uri_with p fp n q f) /\
+    urlparse (spec_uri_with p fp n q f) =
+      Ret (s_file, opt_or n (uri_with_host p fp), norm_path (rooted fp), [], opt_or q [], opt_or f []).
+
+Definition C18_uri_with_statement : Prop := C18_uri_with_gen (fun _ => True).
+Definition C18_uri_with_partial_statement : Prop :=
+  C18_uri_with_gen (fun fp => path_has_authority fp = false).
+
+Theorem C18_uri_with_partial : C18_uri_with_partial_statement.
+Proof.
+  intros p fp n q f G Hfp Hn Hns Hq Hf Hpa.
+  assert (W : with_guard p fp n q f = true)
+    by (unfold with_guard; rewrite G, Hfp, Hpa, Hn, Hns, Hq, Hf; reflexivity).
+  destruct (uri_with_spec p fp n q f W) as [E1 E2]. split; [exact E1|]. rewrite E2.
+  destruct (no_authority_parts fp Hpa) as (_ & _ & EP). rewrite EP.
+  unfold uri_with_host. unfold path_has_authority in Hpa.
+  destruct (unc_parts (rooted fp)); [discriminate|reflexivity].
+Qed.
+Print Assumptions C18_uri_with_partial.
+
+(* F29: uri_with("file:///a", path="//host/x") is "file:///x": the host of the new path is dropped *)
+Theorem C18_refuted_uri_with_authority :
+  uri_with [102;105;108;101;58;47;47;47;97] None None (Some [47;47;104;111;115;116;47;120]) None None None
+    = Ret [102;105;108;101;58;47;47;47;120] /\
+  spec_uri_with [47;97] [47;47;104;111;115;116;47;120] None None None
+    = [102;105;108;101;58;47;47;104;111;115;116;47;120] /\
+  from_fs_path (Some [47;47;104;111;115;116;47;120]) = Ret (Some [102;105;108;101;58;47;47;104;111;115;116;47;120]).
+Proof. vm_compute. repeat split. Qed.
+
+Theorem C18_uri_with_refuted : ~ C18_uri_with_statement.
+Proof.
+  intros H.
+  destruct (H [47;97] [47;47;104;111;115;116;47;120] None None None eq_refl eq_refl eq_refl eq_refl eq_refl eq_refl I)
+    as [E _].
+  vm_compute in E. discriminate.
+Qed.
+
+(* The rest of the extension holds without exception. *)
+Definition C18_ext_statement : Prop :=
+  (* uri_with(u, path = to_fs_path(u)) = u for u produced by from_fs_path; the path is mandatory *)
+  (forall p, guard p = true ->
+     uri_with (spec_uri p) None None (Some (norm p)) None None None = Ret (spec_uri p)) /\
+  (forall p s n pa q f, abs_path p = true ->
+     uri_with (spec_uri p) s n None pa q f = Raise PlainException) /\
+  (* is_win = false is the POSIX model *)
+  (forall p, from_fs_path_gen false p = from_fs_path p) /\
+  (forall u, to_fs_path_gen false u = to_fs_path u) /\
+  (* Windows: both separators are read, the URI is that of the slashed path, backslashes come back;
+     c:\far\boo <-> file:///c:/far/boo; the URI is stable *)
+  (forall p, win_guard p = true ->
+     from_fs_path_gen true (Some p) = Ret (Some (spec_uri (win_slashed p))) /\
+     to_fs_path_gen true (Some (spec_uri (win_slashed p))) = Ret (Some (win_norm p)) /\
+     from_fs_path_gen true (Some (win_norm p)) = Ret (Some (spec_uri (win_slashed p)))) /\
+  (forall u v, to_fs_path (Some u) = Ret (Some v) ->
+     to_fs_path_gen true (Some u) = Ret (Some (to_backslash v))) /\
+  (* urlunparse (urlparse u) = u and uri_scheme u = "file" for u produced by from_fs_path *)
+  (forall p, guard p = true ->
+     bind (urlparse (spec_uri p)) (fun '(a, b, c, d, e, f) => urlunparse a b c d e f) = Ret (spec_uri p)) /\
+  (forall p, abs_path p = true -> uri_scheme (Some (spec_uri p)) = Ret (Some s_file)) /\
+  (* scheme extraction lower-cases (RFC 3986 section 3.1: schemes are case-insensitive) *)
+  (forall pre rest, plain_uri (pre ++ 58 :: rest) = true ->
+     match pre with c0 :: _ => is_alpha c0 | [] => false end = true -> forallb scheme_char pre = true ->
+     uri_scheme (Some (pre ++ 58 :: rest)) = Ret (Some (map lower pre))).
+
+Theorem C18_ext : C18_ext_statement.
+Proof.
+  exact (conj uri_with_identity (conj uri_with_needs_path (conj from_fs_path_gen_posix
+        (conj to_fs_path_gen_posix (conj win_roundtrip (conj win_to_is_posix_backslashed
+        (conj unparse_parse (conj uri_scheme_of_output uri_scheme_lowercases)))))))).
+Qed.
+Print Assumptions C18_ext.
+
+(* The examples pinned by tests/test_uris.py (uri_with; Windows from / to), on the model *)
+Example C18_ext_pinned :
+  (* uri_with("file:///D:/hello%20world.py", path="D:/hello universe.py") = "file:///d:/hello%20universe.py" *)
+  uri_with [102;105;108;101;58;47;47;47;68;58;47;104;101;108;108;111;37;50;48;119;111;114;108;100;46;112;121]
+           None None (Some [68;58;47;104;101;108;108;111;32;117;110;105;118;101;114;115;101;46;112;121]) None None None
+    = Ret [102;105;108;101;58;47;47;47;100;58;47;104;101;108;108;111;37;50;48;117;110;105;118;101;114;115;101;46;112;121] /\
+  (* Windows: "C:\far\space ?boo" -> "file:///c:/far/space%20%3Fboo" -> "c:\far\space ?boo" *)
+  from_fs_path_gen true (Some [67;58;92;102;97;114;92;115;112;97;99;101;32;63;98;111;111])
+    = Ret (Some [102;105;108;101;58;47;47;47;99;58;47;102;97;114;47;115;112;97;99;101;37;50;48;37;51;70;98;111;111]) /\
+  to_fs_path_gen true (Some [102;105;108;101;58;47;47;47;67;58;47;102;97;114;47;115;112;97;99;101;37;50;48;37;51;70;98;111;111])
+    = Ret (Some [99;58;92;102;97;114;92;115;112;97;99;101;32;63;98;111;111]) /\
+  win_guard [67;58;92;102;97;114;92;115;112;97;99;101;32;63;98;111;111] = true /\
+  win_norm [67;58;92;102;97;114;92;115;112;97;99;101;32;63;98;111;111] = [99;58;92;102;97;114;92;115;112;97;99;101;32;63;98;111;111] /\
+  (* UNC: "\\host\share\x" <-> "file://host/share/x" *)
+  from_fs_path_gen true (Some [92;92;104;111;115;116;92;115;104;97;114;101;92;120])
+    = Ret (Some [102;105;108;101;58;47;47;104;111;115;116;47;115;104;97;114;101;47;120]) /\
+  win_norm [92;92;104;111;115;116;92;115;104;97;114;101;92;120] = [92;92;104;111;115;116;92;115;104;97;114;101;92;120] /\
+  (* the scheme is lower-cased *)
+  uri_scheme (Some [70;73;76;69;58;47;47;47;120]) = Ret (Some [102;105;108;101]) /\
+  with_guard [47;97] [68;58;47;120] (Some [104]) (Some [113;32]) None = true.
+Proof. vm_compute. repeat split. Qed.
+
+(* The expected scheme used by the correspondence run (Spec.spec_scheme: the RFC split's scheme, if
+   it is a valid scheme name, in lower case) is what uri_scheme returns on every plain URI. *)
+Theorem C18_scheme_reference_agrees : forall u s, plain_uri u = true -> spec_scheme u = Some s ->
+  uri_scheme (Some u) = Ret (Some s).
+Proof. exact spec_scheme_agrees. Qed.
